@@ -6,6 +6,12 @@
   `stat_cat` lemmas are in TE/Props/C12Stat.lean.
 -/
 import TE.Lemmas.Parts
+import TE.Lemmas.FamStat
+import TE.Lemmas.FamStatCount
+import TE.Lemmas.FamStatAgg
+import TE.Lemmas.FamStatBinned
+import TE.Lemmas.FamStatText
+import TE.Lemmas.FamStatList
 namespace TE.C12
 open TE
 
@@ -66,5 +72,270 @@ example : StatCat (listAcc Nat) (fun b : List Nat => (.ok b : Except Err (List N
   have : (statT (listAcc Nat) fun b : List Nat => (.ok b : Except Err (List Nat))) = id := by
     funext b; rfl
   simp [this]
+
+/-! ## the typed metric families (TE/Model/Fams.lean)
+
+  `StatCat` is proved per family in TE/Lemmas/FamStat*.lean (`FamStat.StatCat` there is this
+  file's `StatCat`, definitionally).  The driver adapters call the very `…Stat` functions named
+  here, so the statements below are about what the differential harness runs.
+  `FamStat.BatchingIrrelevant M stat catB` (TE/Lemmas/FamStat.lean) says, for EVERY `outA`:
+  for every non-empty list `bs` of batches that pass validation and every reordering `bs'` of
+  it, one instance fed `catB bs` in a single update and one instance fed the batches `bs'` one
+  by one both run without error and reach the SAME state (hence the same `compute()`).
+  Batch sizes are arbitrary (1, empty where the real code accepts it, one huge batch);
+  arities (`W`, `d`, `nt`) are fixed per stream. -/
+open TE.Fams
+
+/-- total form of `batching_irrelevant`: both runs succeed and the states coincide. -/
+theorem batching_irrelevant_total (M : Acc A) (L : CommLaws M) {stat : B → Except Err A}
+    {catB : List B → B} (hc : StatCat M stat catB) : FamStat.BatchingIrrelevant M stat catB :=
+  FamStat.batching_of_statCat M L hc
+
+/-- total form of `batching_irrelevant_ordered` (order-carrying accumulators: consecutive batchings). -/
+theorem batching_irrelevant_ordered_total (M : Acc A) (L : Laws M) {stat : B → Except Err A}
+    {catB : List B → B} (hc : StatCat M stat catB) : FamStat.BatchingIrrelevantOrdered M stat catB :=
+  FamStat.batching_ordered_of_statCat M L hc
+
+/-- BinaryAccuracy. -/
+theorem C12_batching_binaryAccuracy (thr : Q) :
+    FamStat.BatchingIrrelevant partsAcc (binaryAccuracyStat thr) catPair :=
+  batching_irrelevant_total partsAcc partsAcc_laws (FamStat.statCat_binaryAccuracy thr)
+
+/-- MulticlassAccuracy (k = 1; every average, predictions = labels or arg-max of logits). -/
+theorem C12_batching_mcAccuracy (avg : Count.Avg) (C : Nat) :
+    FamStat.BatchingIrrelevant partsAcc (mcAccuracyStat avg C) catPair :=
+  batching_irrelevant_total partsAcc partsAcc_laws (FamStat.statCat_mcAccuracy avg C)
+
+/-- MulticlassAccuracy (top-k on logit rows of width W; every average). -/
+theorem C12_batching_mcAccuracyTopk (avg : Count.Avg) (C k W : Nat) :
+    FamStat.BatchingIrrelevant partsAcc (mcAccuracyTopkStat avg C k W) catPair :=
+  batching_irrelevant_total partsAcc partsAcc_laws (FamStat.statCat_mcAccuracyTopk avg C k W)
+
+/-- MultilabelAccuracy (every criterion). -/
+theorem C12_batching_multilabelAccuracy (thr : Q) (crit : Count.Crit) :
+    FamStat.BatchingIrrelevant partsAcc (multilabelAccuracyStat thr crit) catPair :=
+  batching_irrelevant_total partsAcc partsAcc_laws (FamStat.statCat_multilabelAccuracy thr crit)
+
+/-- TopKMultilabelAccuracy (every criterion). -/
+theorem C12_batching_topkMultilabel (crit : Count.Crit) (k : Nat) :
+    FamStat.BatchingIrrelevant partsAcc (topkMultilabelStat crit k) catPair :=
+  batching_irrelevant_total partsAcc partsAcc_laws (FamStat.statCat_topkMultilabel crit k)
+
+/-- BinaryPrecision. -/
+theorem C12_batching_binaryPrecision (thr : Q) :
+    FamStat.BatchingIrrelevant partsAcc (binaryPrecisionStat thr) catPair :=
+  batching_irrelevant_total partsAcc partsAcc_laws (FamStat.statCat_binaryPrecision thr)
+
+/-- BinaryRecall. -/
+theorem C12_batching_binaryRecall (thr : Q) :
+    FamStat.BatchingIrrelevant partsAcc (binaryRecallStat thr) catPair :=
+  batching_irrelevant_total partsAcc partsAcc_laws (FamStat.statCat_binaryRecall thr)
+
+/-- BinaryF1Score. -/
+theorem C12_batching_binaryF1 (thr : Q) :
+    FamStat.BatchingIrrelevant partsAcc (binaryF1Stat thr) catPair :=
+  batching_irrelevant_total partsAcc partsAcc_laws (FamStat.statCat_binaryF1 thr)
+
+/-- MulticlassPrecision (every average). -/
+theorem C12_batching_mcPrecision (avg : Count.Avg) (C : Nat) :
+    FamStat.BatchingIrrelevant partsAcc (mcPrecisionStat avg C) catPair :=
+  batching_irrelevant_total partsAcc partsAcc_laws (FamStat.statCat_mcPrecision avg C)
+
+/-- MulticlassRecall and MulticlassF1Score (same `_update`; every average). -/
+theorem C12_batching_mcRecall (avg : Count.Avg) (C : Nat) :
+    FamStat.BatchingIrrelevant partsAcc (mcRecallStat avg C) catPair :=
+  batching_irrelevant_total partsAcc partsAcc_laws (FamStat.statCat_mcRecall avg C)
+
+/-- MulticlassConfusionMatrix. -/
+theorem C12_batching_confusion (C : Nat) (checkP checkL : Bool) :
+    FamStat.BatchingIrrelevant partsAcc (confusionStat C checkP checkL) catPair :=
+  batching_irrelevant_total partsAcc partsAcc_laws (FamStat.statCat_confusion C checkP checkL)
+
+/-- BinaryConfusionMatrix. -/
+theorem C12_batching_binaryConfusion (thr : Q) :
+    FamStat.BatchingIrrelevant partsAcc (binaryConfusionStat thr) catPair :=
+  batching_irrelevant_total partsAcc partsAcc_laws (FamStat.statCat_binaryConfusion thr)
+
+/-- Mean (scalar or per-sample weights). -/
+theorem C12_batching_mean :
+    FamStat.BatchingIrrelevant partsAcc (meanStat) catWeighted :=
+  batching_irrelevant_total partsAcc partsAcc_laws (FamStat.statCat_mean)
+
+/-- Sum (scalar or per-sample weights). -/
+theorem C12_batching_sum :
+    FamStat.BatchingIrrelevant partsAcc (sumStat) catWeighted :=
+  batching_irrelevant_total partsAcc partsAcc_laws (FamStat.statCat_sum)
+
+/-- MeanSquaredError, streams of one arity d (all 1-D, or all (n, d)); optional sample weights. -/
+theorem C12_batching_mse (d : Nat) :
+    FamStat.BatchingIrrelevant partsAcc (mseStat d) (catCols d) :=
+  batching_irrelevant_total partsAcc partsAcc_laws (FamStat.statCat_mse d)
+
+/-- R2Score, streams of one arity d. -/
+theorem C12_batching_r2 (d : Nat) :
+    FamStat.BatchingIrrelevant partsAcc (r2Stat d) (catCols d) :=
+  batching_irrelevant_total partsAcc partsAcc_laws (FamStat.statCat_r2 d)
+
+/-- BinaryNormalizedEntropy (`ln`, `exp` parameters; per task row). -/
+theorem C12_batching_bne (ln exp : Q → Q) (fl : Bool) (nt : Nat) :
+    FamStat.BatchingIrrelevant partsAcc (bneStat ln exp fl nt) (catTasks nt) :=
+  batching_irrelevant_total partsAcc partsAcc_laws (FamStat.statCat_bne ln exp fl nt)
+
+/-- Perplexity (`exp`, `ln` parameters). -/
+theorem C12_batching_ppl (exp ln : Q → Q) (v : Nat) (ignore : Option Int) :
+    FamStat.BatchingIrrelevant partsAcc (pplStat exp ln v ignore) catPair :=
+  batching_irrelevant_total partsAcc partsAcc_laws (FamStat.statCat_ppl exp ln v ignore)
+
+/-- the additive part of PeakSignalNoiseRatio (squared error, count). -/
+theorem C12_batching_psnr :
+    FamStat.BatchingIrrelevant partsAcc (psnrStat) catPair :=
+  batching_irrelevant_total partsAcc partsAcc_laws (FamStat.statCat_psnr)
+
+/-- ClickThroughRate (per task row; scalar or tensor weights). -/
+theorem C12_batching_ctr (nt : Nat) :
+    FamStat.BatchingIrrelevant partsAcc (ctrStat nt) (catCtr nt) :=
+  batching_irrelevant_total partsAcc partsAcc_laws (FamStat.statCat_ctr nt)
+
+/-- WeightedCalibration (per task row; scalar or tensor weights). -/
+theorem C12_batching_wc (nt : Nat) :
+    FamStat.BatchingIrrelevant partsAcc (wcStat nt) (catWc nt) :=
+  batching_irrelevant_total partsAcc partsAcc_laws (FamStat.statCat_wc nt)
+
+/-- BinaryBinnedPrecisionRecallCurve counts (any threshold list). -/
+theorem C12_batching_binaryBinned (t : List Q) :
+    FamStat.BatchingIrrelevant partsAcc (binaryBinnedStat t) catPair :=
+  batching_irrelevant_total partsAcc partsAcc_laws (FamStat.statCat_binaryBinned t)
+
+/-- MulticlassBinnedPrecisionRecallCurve / MulticlassBinnedAUPRC counts (both optimisations). -/
+theorem C12_batching_mcBinned (t : List Q) (opt : Binned.Opt) (W : Nat) :
+    FamStat.BatchingIrrelevant partsAcc (mcBinnedStat t opt W) catPair :=
+  batching_irrelevant_total partsAcc partsAcc_laws (FamStat.statCat_mcBinned t opt W)
+
+/-- MultilabelBinnedPrecisionRecallCurve / MultilabelBinnedAUPRC counts (both optimisations). -/
+theorem C12_batching_mlBinned (t : List Q) (opt : Binned.Opt) (L : Nat) :
+    FamStat.BatchingIrrelevant partsAcc (mlBinnedStat t opt L) catPair :=
+  batching_irrelevant_total partsAcc partsAcc_laws (FamStat.statCat_mlBinned t opt L)
+
+/-- BinaryBinnedAUPRC counts (per task row). -/
+theorem C12_batching_binaryBinnedAuprc (t : List Q) (nt : Nat) :
+    FamStat.BatchingIrrelevant partsAcc (binaryBinnedAuprcStat t nt) (catTaskPairs nt) :=
+  batching_irrelevant_total partsAcc partsAcc_laws (FamStat.statCat_binaryBinnedAuprc t nt)
+
+/-- WordErrorRate. -/
+theorem C12_batching_wer {α : Type} [DecidableEq α] :
+    FamStat.BatchingIrrelevant partsAcc (werStat (α := α)) catPair :=
+  batching_irrelevant_total partsAcc partsAcc_laws (FamStat.statCat_wer)
+
+/-- WordInformationPreserved. -/
+theorem C12_batching_wip {α : Type} [DecidableEq α] :
+    FamStat.BatchingIrrelevant partsAcc (wipStat (α := α)) catPair :=
+  batching_irrelevant_total partsAcc partsAcc_laws (FamStat.statCat_wip)
+
+/-- WordInformationLost. -/
+theorem C12_batching_wil {α : Type} [DecidableEq α] :
+    FamStat.BatchingIrrelevant partsAcc (wilStat (α := α)) catPair :=
+  batching_irrelevant_total partsAcc partsAcc_laws (FamStat.statCat_wil)
+
+/-- BLEUScore statistics (n-gram order N). -/
+theorem C12_batching_bleu {α : Type} [DecidableEq α] (N : Nat) :
+    FamStat.BatchingIrrelevant partsAcc (bleuStat (α := α) N) catPair :=
+  batching_irrelevant_total partsAcc partsAcc_laws (FamStat.statCat_bleu N)
+
+/-- cache of (score, target) samples: BinaryAUROC, BinaryAUPRC, BinaryPrecisionRecallCurve, BinaryRecallAtFixedPrecision, a task row of BinaryBinnedAUROC, AUC points. -/
+theorem C12_batching_pairSamples {α β : Type} :
+    FamStat.BatchingIrrelevantOrdered (listAcc (α × β)) (pairSamples (α := α) (β := β)) catPair :=
+  batching_irrelevant_ordered_total (listAcc (α × β)) (listAcc_laws _) (FamStat.statCat_pairSamples)
+
+/-- cache of (score, target, weight) samples: weighted BinaryAUROC, Wasserstein1D. -/
+theorem C12_batching_tripleSamples {α β γ : Type} :
+    FamStat.BatchingIrrelevantOrdered (listAcc (α × β × γ)) (tripleSamples (α := α) (β := β) (γ := γ)) catTriple :=
+  batching_irrelevant_ordered_total (listAcc (α × β × γ)) (listAcc_laws _) (FamStat.statCat_tripleSamples)
+
+/-- cache of (row, label / target row) samples: Multiclass/Multilabel AUROC, AUPRC, PR curves, recall@precision, MulticlassBinnedAUROC. -/
+theorem C12_batching_rowSamples {β : Type} :
+    FamStat.BatchingIrrelevantOrdered (listAcc (List Q × β)) (rowSamples (β := β)) catPair :=
+  batching_irrelevant_ordered_total (listAcc (List Q × β)) (listAcc_laws _) (FamStat.statCat_rowSamples)
+
+/-- Cat. -/
+theorem C12_batching_catSamples {α : Type} :
+    FamStat.BatchingIrrelevantOrdered (listAcc α) (catSamples (α := α)) List.flatten :=
+  batching_irrelevant_ordered_total (listAcc α) (listAcc_laws _) (FamStat.statCat_catSamples)
+
+/-- HitRate (per-sample values in update order). -/
+theorem C12_batching_hitRate (C : Nat) (k : Option Int) :
+    FamStat.BatchingIrrelevantOrdered (listAcc Q) (hitRateStat C k) catPair :=
+  batching_irrelevant_ordered_total (listAcc Q) (listAcc_laws _) (FamStat.statCat_hitRate C k)
+
+/-- ReciprocalRank (per-sample values in update order). -/
+theorem C12_batching_reciprocalRank (k : Option Int) :
+    FamStat.BatchingIrrelevantOrdered (listAcc Q) (reciprocalRankStat k) catPair :=
+  batching_irrelevant_ordered_total (listAcc Q) (listAcc_laws _) (FamStat.statCat_reciprocalRank k)
+
+/-! ### non-vacuity: concrete batch lists (sizes 3/1/2, 2/1, …) satisfy the hypotheses -/
+
+
+/-- count group: three batches of sizes 3, 1, 2, also fed in reverse order. -/
+example :
+    let bs : List (List Q × List Q) := [([3/4, 1/4, 1/2], [1, 0, 0]), ([1/8], [1]), ([1, 0], [1, 1])]
+    bs ≠ [] ∧ bs.reverse.Perm bs ∧ (∀ b ∈ bs, ∃ a, binaryAccuracyStat (1/2) b = .ok a) ∧
+      (binaryAccuracyStat (1/2) (catPair bs)).toOption = some [[3], [6]] := by
+  intro bs
+  exact ⟨by decide, List.reverse_perm _, FamStat.valid_of_all _ _ (by decide +kernel), by decide +kernel⟩
+
+example :
+    let bs : List (List Nat × List Nat) := [([0, 2, 1], [0, 1, 1]), ([2], [2]), ([1, 0], [1, 2])]
+    bs ≠ [] ∧ (∀ b ∈ bs, ∃ a, mcRecallStat .macro 3 b = .ok a) ∧
+      (mcRecallStat .macro 3 (catPair bs)).toOption = some [[1, 2, 1], [1, 3, 2], [2, 2, 2]] := by
+  intro bs
+  exact ⟨by decide, FamStat.valid_of_all _ _ (by decide +kernel), by decide +kernel⟩
+
+/-- agg group: Mean with a scalar weight, per-sample weights and the default -/
+example :
+    let bs : List (List Q × Agg.Weight) := [([1, 2, 3], .scalar 2), ([5], .tensor [1/2]), ([1, 1], .scalar 1)]
+    bs ≠ [] ∧ (∀ b ∈ bs, ∃ a, meanStat b = .ok a) ∧
+      (meanStat (catWeighted bs)).toOption = some [[33/2], [17/2]] := by
+  intro bs
+  exact ⟨by decide, FamStat.valid_of_all _ _ (by decide +kernel), by decide +kernel⟩
+
+example :
+    let bs : List ColBatch := [⟨[[1, 2], [0, 1]], [[1, 1], [1, 1]], 2, none⟩, ⟨[[3], [3]], [[1], [2]], 1, some [2]⟩]
+    bs ≠ [] ∧ (∀ b ∈ bs, ∃ a, mseStat 2 b = .ok a) ∧
+      (mseStat 2 (catCols 2 bs)).toOption = some [[9, 3], [4]] := by
+  intro bs
+  exact ⟨by simp [bs], FamStat.valid_of_all _ _ (by decide +kernel), by decide +kernel⟩
+
+/-- rank group -/
+example :
+    let bs : List (Mat × TW) := [([[1, 0, 1], [0, 0, 1]], .scalar 2), ([[1], [1]], .tensor [[3], [1/2]])]
+    bs ≠ [] ∧ (∀ b ∈ bs, ∃ a, ctrStat 2 b = .ok a) ∧
+      (ctrStat 2 (catCtr 2 bs)).toOption = some [[7, 5/2], [9, 13/2]] := by
+  intro bs
+  exact ⟨by simp [bs], FamStat.valid_of_all _ _ (by decide +kernel), by decide +kernel⟩
+
+/-- binned group -/
+example :
+    let bs : List (Mat × List Nat) := [([[1/8, 1/2], [1/2, 1/4], [3/4, 1]], [1, 0, 1]), ([[1, 0]], [0])]
+    bs ≠ [] ∧ (∀ b ∈ bs, ∃ a, mcBinnedStat [1/4, 1/2] .memory 2 b = .ok a) ∧
+      (mcBinnedStat [1/4, 1/2] .memory 2 (catPair bs)).toOption = (mcBinnedStat [1/4, 1/2] .vectorized 2 (catPair bs)).toOption ∧
+      (mcBinnedStat [1/4, 1/2] .memory 2 (catPair bs)).toOption = some [[2, 2, 2, 2], [1, 1, 1, 0], [0, 0, 0, 0]] := by
+  intro bs
+  exact ⟨by decide, FamStat.valid_of_all _ _ (by decide +kernel), by decide +kernel, by decide +kernel⟩
+
+/-- text group -/
+example :
+    let bs : List (List (List Nat) × List (List (List Nat))) :=
+      [([[1, 2, 3, 4], [5, 6]], [[[1, 2, 3, 4, 5]], [[5, 6], [6]]]), ([[7, 8, 9]], [[[7, 9], [7, 8, 9, 9]]])]
+    bs ≠ [] ∧ (∀ b ∈ bs, ∃ a, bleuStat 2 b = .ok a) ∧
+      (bleuStat 2 (catPair bs)).toOption = some [[9], [9], [9, 6], [9, 6]] := by
+  intro bs
+  exact ⟨by decide, FamStat.valid_of_all _ _ (by decide +kernel), by decide +kernel⟩
+
+/-- list group -/
+example :
+    let bs : List (Mat × List Int) := [([[1/2, 1/4, 1/8], [0, 1, 1/2]], [1, 2]), ([[1/4, 1/2, 1]], [0])]
+    bs ≠ [] ∧ (∀ b ∈ bs, ∃ a, reciprocalRankStat none b = .ok a) ∧
+      (reciprocalRankStat none (catPair bs)).toOption = some [1/2, 1/2, 1/3] := by
+  intro bs
+  exact ⟨by decide, FamStat.valid_of_all _ _ (by decide +kernel), by decide +kernel⟩
 
 end TE.C12
